@@ -6,6 +6,7 @@
    (row r, frame c); cell_spec = binarised maximum velocity of the covering notes, 0 if none. *)
 From PV Require Import Lib.Base Lib.Round Model.C13 Proofs.C13_lib Proofs.C13 Proofs.C13_pc Proofs.C13_decode.
 From PV Require Import Proofs.C13_round Proofs.C13_more Proofs.C13_scan Model.C13_Api Proofs.C13_api.
+From PV Require Import Model.C13_Hist Proofs.C13_hist.
 From Coq Require Import QArith Qround Permutation Sorted.
 #[local] Open Scope Z_scope.
 
@@ -430,3 +431,48 @@ Theorem example_interface :
              sparse_sum (r_cells R) 60 5 = 101).
 Proof. exact example_api_lemma. Qed.
 Print Assumptions example_interface.
+
+(* ---- state carried between calls (Model/C13_Hist.v): a caller holding two note arrays edits them in place (HSet),
+   goes from one to the other (HSwitch), calls compute_pianoroll (HRoll) and the pitch-class roll (HPc, which calls
+   compute_pianoroll and folds the index rows it got back in place) in any order and with repeated options, and
+   overwrites the result objects it holds (HWrite).  For EVERY history every observation is the function's value on the
+   array as it is at that moment (hspec reads nothing but the two arrays) ... *)
+Theorem history_observes_current_state : forall keq a b ops,
+  hrun keq false (hinit a b) ops = hspec a b ops.
+Proof. exact history_spec_lemma. Qed.
+Print Assumptions history_observes_current_state.
+
+(* ... in particular a call after any history shows the roll of the current array *)
+Theorem history_last_call_current : forall keq a b ops c,
+  last (hrun keq false (hinit a b) (ops ++ [HRoll c])) None = compute_pianoroll c (hcur a b ops).
+Proof. exact history_last_lemma. Qed.
+Print Assumptions history_last_call_current.
+
+Theorem history_last_pitch_class_current : forall keq a b ops p,
+  last (hrun keq false (hinit a b) (ops ++ [HPc p])) None = pc_source p (hcur a b ops).
+Proof. exact history_last_pc_lemma. Qed.
+Print Assumptions history_last_pitch_class_current.
+
+(* the statement is not vacuous: a compute_pianoroll that remembers its result per argument object and options
+   (compared exactly: copts_eqb) fails it in three ways -- stale after an in-place edit of the array; the caller's
+   write into the object it got comes back; the pitch-class function's in-place fold of the index rows comes back *)
+Theorem history_memo_stale_refuted :
+  let ops := [HRoll hx_opts; HSet (hx_arr 72); HRoll hx_opts] in
+  hrun copts_eqb true (hinit (hx_arr 60) (hx_arr 60)) ops <> hspec (hx_arr 60) (hx_arr 60) ops
+  /\ hrun copts_eqb false (hinit (hx_arr 60) (hx_arr 60)) ops = hspec (hx_arr 60) (hx_arr 60) ops.
+Proof. exact memo_stale_lemma. Qed.
+Print Assumptions history_memo_stale_refuted.
+
+Theorem history_memo_alias_refuted :
+  let ops := [HRoll hx_opts; HWrite 0 None; HRoll hx_opts] in
+  hrun copts_eqb true (hinit (hx_arr 60) (hx_arr 60)) ops <> hspec (hx_arr 60) (hx_arr 60) ops
+  /\ hrun copts_eqb false (hinit (hx_arr 60) (hx_arr 60)) ops = hspec (hx_arr 60) (hx_arr 60) ops.
+Proof. exact memo_alias_lemma. Qed.
+Print Assumptions history_memo_alias_refuted.
+
+Theorem history_memo_sibling_refuted :
+  let ops := [HRoll (pc_copts hx_pc); HPc hx_pc; HRoll (pc_copts hx_pc)] in
+  hrun copts_eqb true (hinit (hx_arr 60) (hx_arr 60)) ops <> hspec (hx_arr 60) (hx_arr 60) ops
+  /\ hrun copts_eqb false (hinit (hx_arr 60) (hx_arr 60)) ops = hspec (hx_arr 60) (hx_arr 60) ops.
+Proof. exact memo_sibling_lemma. Qed.
+Print Assumptions history_memo_sibling_refuted.
